@@ -65,6 +65,21 @@ fn main() {
         std::process::exit(2);
     }
     util::init_out();
+    // one visible cpu for this process (cross-process leg, second group)
+    if std::env::var_os("MOMSIM_PIN_CPU").is_some() {
+        let me = std::process::id() as usize;
+        unsafe {
+            let mut all: libc::cpu_set_t = std::mem::zeroed();
+            if libc::sched_getaffinity(0, std::mem::size_of::<libc::cpu_set_t>(), &mut all) == 0 {
+                let cpus: Vec<usize> = (0..libc::CPU_SETSIZE as usize).filter(|&i| libc::CPU_ISSET(i, &all)).collect();
+                if !cpus.is_empty() {
+                    let mut one: libc::cpu_set_t = std::mem::zeroed();
+                    libc::CPU_SET(cpus[me % cpus.len()], &mut one);
+                    let _ = libc::sched_setaffinity(0, std::mem::size_of::<libc::cpu_set_t>(), &one);
+                }
+            }
+        }
+    }
     let installed = hashkeys::install();
     if hashkeys::SIM_KEYS && !installed {
         eprintln!("HARNESS: could not install the hash-key random source");
